@@ -224,7 +224,7 @@ theorem stop_inv (s : St) (h : Inv s) : Inv (stop s).1 := by
   have h2 := forceResume_inv (closeNewList { s with shutdown := true, newL := [] } s.newL.reverse).1.cfg.allowSuspend _ h1
   simp only
   split
-  · exact h2.congr rfl rfl rfl rfl rfl rfl rfl (cf_merge h2.cf (by simp [CountFaultFree]))
+  · exact h2.congr rfl rfl rfl rfl rfl rfl rfl (by simp [CountFaultFree])
   · exact stopTail_inv _ h2
 
 /-! ### arrivals -/
